@@ -23,6 +23,9 @@ class VRaise(Exception):
         self.exc = exc
 
 
+from .loops import LoopPathEnd  # noqa: E402
+
+
 class Infeasible(Exception):
     pass
 
@@ -161,6 +164,8 @@ def explore(run, max_paths=4000):
             out = run(ctx)
         except Infeasible:
             out = ('infeasible', None)
+        except LoopPathEnd as e:
+            out = ('partial', str(e))
         except Unsupported as e:
             out = ('unsupported', str(e))
         except RecursionError:
@@ -204,6 +209,8 @@ class Interp:
         self.ext_modules = B.make_ext_modules(self)
         self.loading = []
         self.files_used = set()
+        self.pyx_reports = {}
+        self.loop_specs = {}      # 'function#ordinal' -> invariant function (sidecar loop contracts)
         self.call_hooks = {}
         self.trace = None
 
@@ -231,10 +238,36 @@ class Interp:
             raise Unsupported(f'import of unmodelled module {name}')
         return self.load_file(name, path)
 
-    def load_file(self, name, path):
+    def load_pyx(self, relpath):
+        """a Cython kernel: its Python subset is extracted mechanically from the .pyx text (pyvc/pyx.py) on every run"""
+        name = 'pyx:' + relpath[:-4]
+        if name in self.modules:
+            return self.modules[name]
+        from . import pyx as PX
+        path = os.path.join(self.repo, relpath)
         src = open(path).read()
+        try:
+            text, report = PX.extract(src)
+        except PX.PyxError as e:
+            raise Unsupported(f'{relpath}: {e}')
+        self.pyx_reports[relpath] = {'report': report, 'diff': PX.diff(src, text, relpath)}
+        pre = {}
+        mathmod = self.import_module('math')
+        for ex in report['extern']:
+            for n in ex['names']:
+                if n not in mathmod.ns:
+                    raise Unsupported(f'{relpath}: extern function {n} has no model')
+                pre[n] = mathmod.ns[n]
+        for sib in report['sibling_imports']:
+            sm = self.load_pyx(os.path.join(os.path.dirname(relpath), sib['module'] + '.pyx'))
+            for n in sib['names']:
+                pre[n] = sm.ns[n]
+        return self.load_file(name, path, src=text, pre=pre)
+
+    def load_file(self, name, path, src=None, pre=None):
+        src = open(path).read() if src is None else src
         tree = ast.parse(src, filename=path)
-        mod = ModuleNS(name, {'__name__': name, '__file__': path})
+        mod = ModuleNS(name, dict({'__name__': name, '__file__': path}, **(pre or {})))
         self.modules[name] = mod
         self.files_used.add(path)
         frame = Frame(None, mod.ns)
@@ -290,9 +323,12 @@ class Interp:
     def get(self, dotted):
         """resolve 'pkg.mod::Class.attr' or 'pkg.mod::func'"""
         modname, _, path = dotted.partition('::')
-        if modname.endswith('.py'):
-            modname = modname[:-3].replace('/', '.')
-        mod = self.import_module(modname)
+        if modname.endswith('.pyx'):
+            mod = self.load_pyx(modname)
+        else:
+            if modname.endswith('.py'):
+                modname = modname[:-3].replace('/', '.')
+            mod = self.import_module(modname)
         v = mod
         for part in path.split('.') if path else []:
             if isinstance(v, ModuleNS):
@@ -518,7 +554,32 @@ class Interp:
         else:
             self.exec_block(s.orelse, f)
 
+    def loop_key(self, s, f):
+        fn = f.func
+        if fn is None or not hasattr(fn, 'node'):
+            return None
+        ords = getattr(fn, '_loop_ords', None)
+        if ords is None:
+            ords = {}
+            k = 0
+            for n in ast.walk(fn.node):
+                if isinstance(n, (ast.For, ast.While)):
+                    ords[id(n)] = None
+            # ast.walk is breadth-first: order loops by source position instead
+            loops = sorted((n for n in ast.walk(fn.node) if isinstance(n, (ast.For, ast.While))), key=lambda n: (n.lineno, n.col_offset))
+            ords = {id(n): k for k, n in enumerate(loops)}
+            fn._loop_ords = ords
+        return f'{fn.name}#{ords.get(id(s))}'
+
     def s_For(self, s, f):
+        key = self.loop_key(s, f)
+        spec = self.loop_specs.get(key) if key is not None else None
+        if spec is not None and isinstance(s.iter, ast.Call) and isinstance(s.iter.func, ast.Name) and s.iter.func.id == 'range' \
+                and len(s.iter.args) == 1 and not s.iter.keywords and isinstance(s.target, ast.Name) and not s.orelse:
+            n = self.eval(s.iter.args[0], f)
+            if isinstance(n, Sym):
+                from . import loops as L
+                return L.for_with_invariant(self, s, f, key, spec, n)
         items = self.iterate(self.eval(s.iter, f), lazy_ok=True)
         broke = False
         for x in items:
@@ -756,8 +817,13 @@ class Interp:
                 guard = z3.And(*acc) if is_and else z3.And(*[z3.Not(a) for a in acc])
                 ndec = len(self.ctx.decisions)
                 self.ctx.pc.append(guard)
+                unreachable = False
                 try:
                     v = self.eval(sub, f)
+                except Infeasible:
+                    # the operand cannot be reached on this path (its guard contradicts the path condition): the value of the
+                    # whole expression is decided by the operands already evaluated
+                    unreachable = True
                 finally:
                     # remove the guard (it is the element we pushed, possibly followed by decisions)
                     idx = len(self.ctx.pc) - 1 - (len(self.ctx.decisions) - ndec)
@@ -766,6 +832,8 @@ class Interp:
                     if moved:
                         # decisions were taken under the guard: keep them guarded
                         self.ctx.pc.extend(z3.Implies(guard, m) for m in moved)
+                if unreachable:
+                    return mk(z3.And(*acc) if is_and else z3.Or(*acc), 'bool')
             else:
                 v = self.eval(sub, f)
             if isinstance(v, Sym) and v.kind == 'bool':
